@@ -290,6 +290,7 @@ const (
 	MRequestedOptions                // WithRequestedOptions(Codes...): existing list, then the new codes not yet present
 	MGeneric                         // WithGeneric(Code, Val): option Code := Val
 	MRelay                           // WithRelay(IP): clear the broadcast bit, giaddr := IP (whatever it was), one more hop
+	MHWType                          // WithHWType(T): htype := T
 )
 
 // Mod is one modifier instance.
@@ -303,9 +304,15 @@ type Mod struct {
 	Code  uint8
 	Val   []byte
 	Codes []uint8
+	// Label names the exported function a MGeneric / MRequestedOptions instance stands for when it is not
+	// WithGeneric / WithRequestedOptions itself (WithNetmask, WithLeaseTime, … set one option to a fixed encoding)
+	Label string
 }
 
 func (m Mod) String() string {
+	if m.Label != "" {
+		return m.Label
+	}
 	switch m.Kind {
 	case MMessageType:
 		return fmt.Sprintf("WithMessageType(%d)", m.T)
@@ -333,6 +340,8 @@ func (m Mod) String() string {
 		return fmt.Sprintf("WithGeneric(%d, %x)", m.Code, m.Val)
 	case MRelay:
 		return "WithRelay(" + ipStr(m.IP) + ")"
+	case MHWType:
+		return fmt.Sprintf("WithHWType(%d)", m.T)
 	}
 	return "?"
 }
@@ -381,6 +390,8 @@ func (m Mod) Apply(p *Packet) {
 		p.Flags &^= FlagBroadcast
 		p.GI = m.IP
 		p.Hops++
+	case MHWType:
+		p.HType = m.T
 	}
 }
 
